@@ -42,6 +42,9 @@ type c10Case struct {
 	// "h-del" address <bucket>.s3.test with the key alone on the request line, everything else
 	// (the observers included) uses the base itself as Host and so falls back to path-style
 	HostStyle bool `json:"hostStyle,omitempty"`
+	// Versioned: versioning is enabled on the buckets before the first op (memory backend): deletes
+	// leave delete markers, writes keep the older versions
+	Versioned bool `json:"versioned,omitempty"`
 }
 
 var c10Hostile = []string{".", "..", "a/../b", "../x", "../bk1/x", "../bk1/a", "../../metadata/bk0/x", "../../metadata/bk1/a-x", "../../buckets2/x", "../../root2/x", "../bk0", "../bk1",
@@ -379,6 +382,15 @@ func (e *c10Env) step(op c10Op) (ds []disc, accepted bool) {
 		for g := range gb {
 			if !ga[g] && !(b == op.B && mutating && strings.HasPrefix(addrKey+"/", g)) && !(b == op.B && (op.K == "rmbucket" || op.K == "api-rmbucket" || op.K == "api-force-rmbucket")) {
 				fail("unaddressed-prefix-vanished", "the '/'-delimited listing of %s lost the common prefix %q although %s/%q was addressed", b, g, op.B, addrKey)
+			} else if !ga[g] && !e.st.Kind.IsFs() {
+				// the addressed key lay below the prefix: the prefix may go with it, but not while the
+				// (flat) listing still shows other keys below it (key-value backends: keys are opaque)
+				for k := range after.Entries[b] {
+					if k != addrKey && strings.HasPrefix(k, g) && len(k) > len(g) {
+						fail("sibling-unlistable", "the '/'-delimited listing of %s lost the common prefix %q while %q is still stored below it; %s/%q was addressed", b, g, k, op.B, addrKey)
+						break
+					}
+				}
 			}
 		}
 	}
@@ -435,6 +447,13 @@ func (e *c10Env) step(op c10Op) (ds []disc, accepted bool) {
 func c10Exec(cs c10Case) (ds []disc, accepted int) {
 	e := newC10Env(cs.Backend, cs.HostStyle)
 	defer e.st.Close()
+	if cs.Versioned {
+		for _, b := range e.buckets {
+			if r := s3x.Do(e.st.Handler, &s3x.Req{Method: "PUT", Path: "/" + b, Query: s3x.Q("versioning", s3x.Bare), Body: []byte(`<VersioningConfiguration><Status>Enabled</Status></VersioningConfiguration>`)}); r.Status != 200 {
+				panic("harness: enable versioning: " + r.String())
+			}
+		}
+	}
 	for i, op := range cs.Ops {
 		sd, acc := e.step(op)
 		if acc {
@@ -736,6 +755,29 @@ func c10Run(t *testing.T, c *evid.Collector) {
 					}
 					ds, acc := c10Exec(cs)
 					record("framing", cs, ds, acc, "host-style")
+				}
+			}
+		}
+	}
+	// ---- versioned buckets (memory backend): a delete leaves a marker and a write keeps what was there;
+	// neither reaches the keys beside the addressed one - in particular not the ones that share its prefix
+	for _, k := range kinds {
+		if k != backends.Mem {
+			continue
+		}
+		for _, key := range []string{"a", "d/x", "d/y", "d", "d/", "d/x/y", "a/b", "d/w", "d/x0", "c/first", "z", "new", "a//b", "d/./x", "../bk1/a", "é"} {
+			for _, opk := range []string{"del", "mdel", "put", "copy-to", "post", "complete"} {
+				for _, b := range []string{"bk0", "bk1"} {
+					n++
+					if n%evid.Shards() != evid.Shard() {
+						continue
+					}
+					cs := c10Case{Backend: k, Versioned: true, Ops: []c10Op{{K: opk, B: b, Key: key, Body: "in a versioned bucket"}}}
+					if opk == "put" {
+						cs.Ops = append(cs.Ops, c10Op{K: "del", B: b, Key: key}, c10Op{K: "del", B: b, Key: key})
+					}
+					ds, acc := c10Exec(cs)
+					record("framing", cs, ds, acc, "versioned")
 				}
 			}
 		}
